@@ -1,7 +1,7 @@
 (* C03 -- expressions evaluate as documented. *)
 From Coq Require Import List NArith ZArith Bool.
 Import ListNotations.
-From Mos Require Import model.I64 Gen.BinOps Gen.ExprGrammar model.Expr model.ExprParse spec.ExprSem spec.ExprPrint proofs.ExprProofs proofs.ExprParseProofs.
+From Mos Require Import model.I64 Gen.BinOps Gen.ExprGrammar model.Expr model.ExprParse spec.ExprSem spec.ExprPrint proofs.ExprProofs proofs.ExprParseProofs Gen.TextEnc model.TextEnc spec.TextEncSpec proofs.TextEncProofs.
 Open Scope Z_scope.
 
 (* For every expression tree of the numeric language -- any depth, any operand values -- inside the property's
@@ -90,6 +90,33 @@ Example C03_example_print :
                 Eq (T1 y) in
   wf_loose l = true /\
   pr_loose l = [49;32;43;32;36;48;102;32;42;32;40;120;32;45;32;37;49;48;41;32;47;32;51;32;61;61;32;121]%N.
+Proof. split; vm_compute; reflexivity. Qed.
+
+(* `.text`: the bytes of the string in the selected encoding.  The PETSCII table and the screen-code arms are translated
+   from cbm/petscii.rs / text_encoding.rs on every run; the spec is written from the layout of the Commodore character
+   sets.  For every string of printable ASCII characters (any length): ascii stores the characters themselves, petscii
+   and petscreen store spec_petscii / spec_screen of each character; every character of ANY string becomes exactly one
+   byte in the two Commodore encodings, and the screen-code match is exhaustive over u8. *)
+Theorem C03_text_ascii : forall s, Forall (fun c => (c < 128)%N) s -> encode_text EncAscii s = s.
+Proof. exact text_ascii. Qed.
+Print Assumptions C03_text_ascii.
+
+Theorem C03_text_petscii : forall s, Forall printable s -> encode_text EncPetscii s = map spec_petscii s.
+Proof. exact text_petscii. Qed.
+Print Assumptions C03_text_petscii.
+
+Theorem C03_text_petscreen : forall s, Forall printable s -> encode_text EncPetscreen s = map spec_screen s.
+Proof. exact text_petscreen. Qed.
+Print Assumptions C03_text_petscreen.
+
+Theorem C03_text_one_byte_per_char : forall enc s, enc <> EncAscii ->
+  length (encode_text enc s) = length s /\ Forall (fun b => (b < 256)%N) (encode_text enc s).
+Proof. exact text_one_byte_per_char. Qed.
+Print Assumptions C03_text_one_byte_per_char.
+
+(* the documented example: .text petscreen "abc" emits 1, 2, 3 *)
+Example C03_example_petscreen : encode_text EncPetscreen [97; 98; 99]%N = [1; 2; 3]%N /\
+                                encode_text EncPetscii [97; 98; 99]%N = [65; 66; 67]%N.
 Proof. split; vm_compute; reflexivity. Qed.
 
 (* non-vacuity and documented corners *)
